@@ -174,6 +174,9 @@ class _Values(SOpaque):
         t = self.eq_term if self.eq_term is not None else getattr(other, "eq_term", None)
         return t if t is not None else False
 
+    def as_absset(self):
+        return _View(self, "keys-as-set")        # set(<dict>) is the set of its keys (member names)
+
     def getattr(self, I, name):
         if name in ("values", "keys", "items"):
             # a coarser view of the table (its values / names only): equal tables have equal views, not conversely
@@ -255,7 +258,7 @@ def enum_build_contract(literal=False):
                       statement="a returned (Literal)EnumProperty is registered under a class name that was absent from the table or "
                                 "held an EnumProperty with equal members (the same inline enum met twice is shared); any other "
                                 "occupant yields a PropertyError; every other entry of the table is kept")]
-    return FnContract(Q, [Case("registration", make, clauses, raises=(), props=["C09", "C07", "C12"])])
+    return FnContract(Q, [Case("registration", make, clauses, raises=(), props=["C09", "C07", "C12", "C14"])])
 
 
 def literal_enum_build_contract():
